@@ -127,7 +127,7 @@ func c19SweepCases() []c19Case {
 		for fi := range r.Fields {
 			for _, alien := range append(append([]string{}, c19Aliens...), `null`) {
 				if k := c19KnownExtreme(r.Path, r.Fields[fi].N, alien); k != "" && verifkit.Known(k) {
-					continue // e.g. the alien -7 in ef_search: shape of a known finding
+					continue // hook: shape of a known finding (none at present)
 				}
 				var fs []c19KV
 				for j, f := range r.Fields {
